@@ -4,6 +4,7 @@
   theorems are about (`GriddleModel.Map` and below).
 -/
 import GriddleModel.Protocol
+import GriddleModel.Iter
 import GriddleModel.Panic
 open Griddle
 
@@ -178,6 +179,21 @@ def replayLine (s : DState) (op : String) (mid : Nat) (args : List String) (orc 
     match getMap s mid with
     | some m => k m
     | none => .bad s!"no map {mid}"
+  -- `size_hint()` readings: the step machines of `GriddleModel/Iter.lean` are pulled as often as the harness pulled
+  let nHints : Nat := match field? obs "hints" with
+    | some h => if h == "" || h == "-" then 0 else (h.splitOn ",").length
+    | none => 0
+  let fmtHints (hs : List (Nat × Option Nat)) : String :=
+    ",".intercalate (hs.map fun (lo, hi) =>
+      match hi with
+      | some h => if h == lo then toString lo else s!"{lo}/{h}"
+      | none => s!"{lo}/none")
+  let drainHints (m : Map) : Except Fault (List (String × String)) :=
+    if nHints == 0 then .ok [] else
+    let mo := It.mainInOrder m (o.calls.drop (o.calls.length - m.main.ents.length))
+    match It.DIt.run nHints (It.DIt.ofMap m mo) with
+    | .ok (hs, _, _) => .ok [("hints", fmtHints hs)]
+    | .error f => .error f
   let nat (x : String) (k : Nat → Replay) : Replay :=
     match x.toNat? with | some n => k n | none => .bad s!"bad number {x}"
   match op, args with
@@ -205,17 +221,26 @@ def replayLine (s : DState) (op : String) (mid : Nat) (args : List String) (orc 
       | none => .bad "pred"
       | some p => fin (resolveEmpt (fun e => Map.drainFilter m p take (forget == "1") { o with empt := e }) glObs)
   | "drain", [take, forget] => nat take fun take => needMap fun m =>
-      fin (Map.drain m take (forget == "1") o)
+      match Map.drain m take (forget == "1") o, drainHints m with
+      | .ok (m', out), .ok hf => .ok (setMap s mid m') (obsFields m' out ++ hf)
+      | .error f, _ => .fault f
+      | _, .error f => .fault f
   | "intoiter", [take] => nat take fun take => needMap fun m =>
-      match Map.intoIter m take o with
-      | .ok out =>
+      match Map.intoIter m take o, drainHints m with
+      | .ok out, .ok hf =>
         -- the map is gone: report what the call itself showed
-        .ok (delMap s mid) [("ret", fmtRet out.ret), ("da", toString out.cost.allocs), ("df", toString out.cost.frees),
-                            ("drop", fmtIds out.cost.dropped), ("retd", fmtIds out.returned), ("panic", "-")]
-      | .error f => .fault f
+        .ok (delMap s mid) ([("ret", fmtRet out.ret), ("da", toString out.cost.allocs), ("df", toString out.cost.frees),
+                            ("drop", fmtIds out.cost.dropped), ("retd", fmtIds out.returned), ("panic", "-")] ++ hf)
+      | .error f, _ => .fault f
+      | _, .error f => .fault f
   | "iter", [] => needMap fun m =>
       match Map.iter m o with
-      | .ok out => .ok s (obsFields m out)
+      | .ok out =>
+        if nHints == 0 then .ok s (obsFields m out) else
+        let mo := It.mainInOrder m (o.calls.take m.main.ents.length)
+        (match It.RIt.run nHints (It.RIt.ofMap m mo) with
+         | .ok (hs, _, _) => .ok s (obsFields m out ++ [("hints", fmtHints hs)])
+         | .error f => .fault f)
       | .error f => .fault f
   | "itermut", [add] => nat add fun add => needMap fun m => fin (.ok (Map.iterMutAdd m add, {}))
   | "dump", [] => needMap fun m => .ok s (obsFields m { ret := .ents (sortEnts m.ents) })
